@@ -28,23 +28,23 @@ import (
 )
 
 type config struct {
-	Repo       string
-	Harness    string
-	NoMerge    bool
-	NoMemo     bool
-	MaxDepth   int
-	MaxSteps   int
-	MaxSlice   int
-	MaxPaths   int
-	TimeoutMs  int
-	Solver     string
-	Partition  bool
-	MaxViol    int
-	Verbose    bool
-	Overlays   string
-	SolverLog  string
-	CrossCheck string
-	Internal   bool
+	Repo        string
+	Harness     string
+	NoMerge     bool
+	NoMemo      bool
+	MaxDepth    int
+	MaxSteps    int
+	MaxSlice    int
+	MaxPaths    int
+	TimeoutMs   int
+	Solver      string
+	Partition   bool
+	MaxViol     int
+	Verbose     bool
+	Overlays    string
+	SolverLog   string
+	CrossCheck  string
+	Internal    bool
 	JobTimeoutS int
 }
 
@@ -478,6 +478,10 @@ func runJob(j job) *jobResult {
 	t0 := time.Now()
 	res := &jobResult{ID: j.ID, Harness: j.Harness, Args: j.Args, Asserts: map[string]*assertStat{}, PanicSites: map[string]int{}}
 	cur = res
+	jobDeadline = time.Time{}
+	if cfg.JobTimeoutS > 0 {
+		jobDeadline = t0.Add(time.Duration(cfg.JobTimeoutS) * time.Second)
+	}
 	stats = struct {
 		forks, merges, mergedPaths, mergeFallbacks, twoVar, memoHits, prunedDomAlts, mapRanges, mergeCacheHits, impliedBranches int
 	}{}
